@@ -47,6 +47,38 @@ class Impl:
         try:
             self.table.write(0, 0, value)
             self.table.set_cell_formatting(0, 0, typ, **kw)
+            cell = self.table.cell(0, 0)
+            text = cell.formatted_value
+            if cell.value != value and not (cell.value != cell.value and value != value):
+                # formatting is decoration: it does not change what the cell holds (the display is compared with the
+                # value that was written)
+                return f"!VALUE-CHANGED to {cell.value!r} (displayed {text!r})"
+            return text
+        except Exception as e:  # noqa: BLE001
+            return "!" + type(e).__name__
+
+    def run_after(self, first, case):
+        """The display of `case` on a cell that was formatted as `first` and read before (the same cell object)."""
+        got = []
+        real_show = self.show
+
+        def capture(value, typ, **kw):
+            got.append((value, typ, kw))
+            return ""
+        self.show = capture
+        try:
+            self.run(first)
+            self.run(case)
+        finally:
+            self.show = real_show
+        if len(got) != 2:
+            return "!harness"
+        (v1, t1, k1), (v2, t2, k2) = got
+        try:
+            self.table.write(0, 0, v2)
+            self.table.set_cell_formatting(0, 0, t1, **k1)
+            _ = self.table.cell(0, 0).formatted_value
+            self.table.set_cell_formatting(0, 0, t2, **k2)
             return self.table.cell(0, 0).formatted_value
         except Exception as e:  # noqa: BLE001
             return "!" + type(e).__name__
@@ -194,6 +226,8 @@ def oracle_case(im: Impl, case, text: str):
     Returns None or (signature, detail).  No model involved."""
     kind, v = case[0], dec_val(case[1])
     d = exact(v)
+    if text.startswith("!VALUE-CHANGED"):
+        return ("value-changed-by-formatting", f"{case}: after set_cell_formatting the cell reports its value as {text[15:]}")
     if text.startswith("!"):
         return _expected_exception(im, case, text)
     if kind in ("num", "pct", "cur"):
@@ -479,10 +513,14 @@ def gen_cases(ctx: Ctx, im: Impl, values):
         minus = 1 if b not in (2, 8, 16) else rng.randrange(2)
         if rng.random() < 0.01:
             b, minus = rng.choice([(10, 0), (1, 1), (37, 1), (7, 0)])
+        elif rng.random() < 0.06:
+            b, minus = rng.choice([4, 32, 3, 5, 12, 20, 36]), 0      # two's complement asked for a base that has none
         cases.append(("bas", ev, b, rng.randrange(0, 9), minus))
         cases.append(("fra", ev, rng.choice(im.fa_list)))
         if isinstance(v, int) and -3 <= v <= 40 or (isinstance(v, float) and abs(v) < 30 and rng.random() < 0.2):
             cases.append(("rat", ev))
+    for v in (6, 7, 12, 5, 0, -1, 7.0, 5.5, 100):
+        cases.append(("rat", enc_val(v)))
     return cases
 
 
@@ -700,6 +738,18 @@ def run(ctx: Ctx) -> int:
             res = ("oracle-crash", f"{type(e).__name__}: {e} on {c} -> {t!r}")
         if res:
             ctx.oracle_fail(res[0], list(c), res[1])
+    # a cell that was formatted and displayed before is formatted again: it shows what a freshly formatted cell shows
+    # (number, percentage, scientific, base and fraction formats - the formats that share the cell's number-format slot)
+    slot = [i for i, c in enumerate(cases) if c[0] in ("num", "pct", "sci", "bas", "fra") and not texts[i].startswith("!")]
+    rng = ctx.rng
+    for _ in range(min(len(slot) // 2, 400 if ctx.quick else 4000)):
+        i, j = rng.choice(slot), rng.choice(slot)
+        first = (cases[i][0], cases[j][1]) + tuple(cases[i][2:])     # the other format, on the same value
+        ctx.count("oracle-reformat")
+        got = im.run_after(first, cases[j])
+        if got != texts[j]:
+            ctx.oracle_fail("reformatted-cell-shows-stale-text", {"first": list(first), "then": list(cases[j])},
+                            f"formatted as {first}, displayed, formatted as {cases[j]}: shows {got!r}; a freshly formatted cell shows {texts[j]!r}")
     return common.finish(ctx, search)
 
 
@@ -773,6 +823,15 @@ def replay(path: str) -> int:
     d = json.loads(open(path).read())
     if d.get("kind") == "failing-input":
         im = Impl()
+        if isinstance(d["case"], dict) and "first" in d["case"]:
+            first, then = tuple(d["case"]["first"]), tuple(d["case"]["then"])
+            fresh, again = im.run(then), im.run_after(first, then)
+            print(f"replay: {then} displays {fresh!r} on a fresh cell, {again!r} after {first}")
+            if fresh != again:
+                print(f"VIOLATION property=C13 replay={path}")
+                return 1
+            print("replay: case passes on the current tree")
+            return 0
         case = tuple(d["case"])
         t = im.run(case)
         res = oracle_case(im, case, t)
